@@ -109,6 +109,19 @@ add(
     "DESIGN.md 6/C10",
 )
 
+add(
+    "C02",
+    "exploration",
+    "Real Tuner over (1) a scripted file back-end in which Hypothesis owns how many tagged reports each live script flushes per poll, "
+    "when its exit becomes visible, how many late lines are written before a kill and whether a resumed script restarts, with "
+    "tape-driven decisions (any CONTINUE/STOP/PAUSE/resume sequence) or real schedulers, and (2) the simulator on generated tables; "
+    "history invariants over (trial, run, seq) tags: ordered duplicate-free gap-free prefix, complete when the run completed, nothing "
+    "after a STOP/PAUSE decision (also after resume), results log == delivery. 2.6e4 runs quick, 5e5 thorough.",
+    "The scripted back-end replaces LocalBackend._schedule only; SageMaker / Python back-ends are not executed (they share the generic logic).",
+    "property-based testing (Hypothesis choice tape owning the worker schedule, real Tuner): delivery-ledger invariants over tagged reports",
+    "DESIGN.md 6/C02",
+)
+
 NOT_YET = {}
 
 ALL = [f"C{i:02d}" for i in range(1, 21)]
